@@ -28,7 +28,7 @@ fn emit(out: &mut Vec<String>, block: &str, id: &str, status: &str, text: &str) 
 fn window_block(cfg: &Cfg, out: &mut Vec<String>) {
 	let block = "window";
 	let mut ns: Vec<usize> = if cfg.small { (1..=8).collect() } else { (1..=32).collect() };
-	ns.extend_from_slice(&[253, 254]);
+	ns.extend_from_slice(&[129, 200, 253, 254]);
 	if cfg.wide && (PeriodType::MAX as u64) > 255 {
 		ns.extend_from_slice(&[255, 256, 300, 1000]);
 	}
@@ -98,6 +98,10 @@ fn window_block(cfg: &Cfg, out: &mut Vec<String>) {
 							t.push_str(&format!("e{fe:?}"));
 							t.push_str(&format!("z{:?}", adv().zip(adv2()).map(|(x, y)| x + y).collect::<Vec<_>>()));
 							t.push_str(&format!("x{:?}{:?}", adv().cloned().collect::<Vec<u32>>(), adv().enumerate().last()));
+							// nth / skip at every distance class: inside, at the end, beyond, around the capacities of 8 and 16 bits
+							for j in [0usize, 2, n / 2, n.saturating_sub(1), n, n + 1, 100, 127, 128, 129, 200, 254, 255, 256, 257, 300, 65535, 65536] {
+								t.push_str(&format!("N{:?}K{:?}", adv().nth(j), adv().skip(j).next()));
+							}
 						}};
 					}
 					adaptors!(w.iter(), w.iter_rev());
